@@ -57,6 +57,10 @@ def scripts(d):
         "die-mid-stor": ["USER bob", "PASS pw", "EPSV", "@data", f"STOR /{d}/part", "@dsend xxxx", "@cdrop"],
         "die-after-pasv": ["USER bob", "PASS pw", "PASV", "@cdrop"],
         "die-list-noread": ["USER bob", "PASS pw", "PASV", "@data", "@dstop", f"LIST /{d}", "@cdrop"],
+        # a server restricted to a few passive ports, all of them taken by somebody else's listener while this session
+        # asks for one (it is turned away with 421); the ports are free again when the next session comes
+        "die-busy-pasv": ["@busy-on", "PASV", "@busy-off"],
+        "die-busy-epsv": ["PWD", "@busy-on", "EPSV", "@busy-off"],
     }
 
 
@@ -93,6 +97,8 @@ def run_pair(case, chooser):
     skw = {"block_size": B, "wait_future_timeout": 1}
     if case.get("server_limit"):
         skw["maximum_connections"] = case["server_limit"]
+    if case.get("data_ports"):
+        skw["data_ports"] = list(case["data_ports"])
     if case.get("throttle"):
         # a server-wide limit shared by both sessions (virtual time: costs nothing); events are then fired with a frozen
         # clock so that both sessions' transfers really wait on the shared throttle at the same time
@@ -127,6 +133,15 @@ def run_pair(case, chooser):
                 rig.ev(who, "@connect")
                 rig.ev(who, "USER anonymous")
                 connected[who] = True
+            if e in ("@busy-on", "@busy-off"):
+                class Foreign:
+                    closed = False
+                for port in case.get("data_ports", ()):
+                    if e == "@busy-on":
+                        w.net.listeners[port] = Foreign()
+                    elif isinstance(w.net.listeners.get(port), Foreign) or type(w.net.listeners.get(port)).__name__ == "Foreign":
+                        del w.net.listeners[port]
+                continue
             # fired: the two sessions act in the same instant (A's event is not settled before B's)
             if case.get("fire") and who == 0 and n + 1 < len(order) and order[n + 1] == 1:
                 e += "!"
@@ -424,6 +439,11 @@ def build_items(tier):
         for nb in ("login-bob", "retry-login", "upload"):
             items.append(("after", na, nb, {"bound": 1, "cap": 3000, "bob_limit": 1, "server_limit": 1, "window": 1,
                                             "b_connects_late": True}))
+    # a session that is turned away because every passive port is busy; the next session must find the whole pool
+    for na in ("die-busy-pasv", "die-busy-epsv"):
+        for nb in ("upload", "download-twice", "type-list"):
+            for ports in ([30001], [30001, 30002]):
+                items.append(("after", na, nb, {"bound": 1, "cap": 3000, "data_ports": ports, "b_connects_late": True}))
     # the same under a speed limit shared by the two sessions: one session aborts / is cut / quits while the other's
     # transfer is waiting on the shared throttle
     for na in ("big-abort", "big-abort-retr", "big-cut", "big-upload"):
@@ -450,6 +470,7 @@ def run(tier, seed, t0):
               "interleavings": "all merges of the two event lists (settling between events)",
               "fired": "alternating, no settle between command lines, <= 1 deviation (early/order/batch)",
               "throttled": "8 pairs of multi-second transfers x both orders under a server-wide read/write limit shared by the sessions",
+              "busy_passive_ports": "a session turned away with 421 while every configured passive port is busy, then the next session (pools of 1 and 2 ports)",
               "cases": len(items)}
     return report.finish(
         PID, tier, seed, "model_checking", part, t0,
